@@ -8,6 +8,7 @@ package c09
 import (
 	"crypto/x509"
 	"encoding/json"
+	"errors"
 	"fmt"
 	"sort"
 	"strings"
@@ -85,6 +86,7 @@ type state struct {
 	enrolled    bool
 	rotatedNow  bool
 	enrolledNow bool
+	faultedNow  bool
 	ticks       int
 	gen         int // node credential generation (names fresh keys)
 }
@@ -312,7 +314,7 @@ func (w *world) apply(s *state, label string, r *engine.Report) (*state, string,
 		ns.now = s.now.Add(unit)
 		ns.sinceRotate++
 		ns.sinceEnroll++
-		ns.rotatedNow, ns.enrolledNow = false, false
+		ns.rotatedNow, ns.enrolledNow, ns.faultedNow = false, false, false
 		ns.ticks++
 	case "rotate":
 		if s.rotatedNow {
@@ -336,6 +338,32 @@ func (w *world) apply(s *state, label string, r *engine.Report) (*state, string,
 				rel(pre.Current.NotBefore.AsTime(), s.now), rel(pre.Current.NotAfter.AsTime(), s.now), rel(pre.Next.NotBefore.AsTime(), s.now), rel(pre.Next.NotAfter.AsTime(), s.now))
 		}
 		ns.sinceRotate, ns.rotatedNow = 0, true
+	case "rotate-fault-1", "rotate-fault-2", "rotate-fault-3":
+		// a rotation call during which one storage operation fails: whatever it
+		// returns, it must not disturb the chain of promotions (the operator retries)
+		if s.rotatedNow {
+			return nil, "", ""
+		}
+		pos := int(label[len(label)-1] - '0')
+		ns.st.ResetLog()
+		ns.st.Faults = map[int]error{pos: errors.New("injected storage failure")}
+		pre := w.roots(s)
+		post, err := rotation.RotateRootCertificates(harness.Ctx, ns.st, w.cfg.opts()...)
+		hit := ns.st.Calls >= pos
+		ns.st.Faults = nil
+		if !hit {
+			return nil, "", "" // the call made fewer storage operations
+		}
+		now, lerr := types.LoadRootCertificates(harness.Ctx, ns.st.Clone())
+		switch {
+		case lerr != nil:
+			return ns, "trust-reset:roots-lost-by-failed-rotation", fmt.Sprintf("a rotation call that hit a storage failure (operation %d, returned err=%v) left storage without a loadable root set: %v", pos, err, lerr)
+		case err == nil && !proto.Equal(post, now):
+			return ns, "rotation-success-not-persisted", "a rotation call reported success for roots that are not in storage"
+		case !proto.Equal(now, pre) && !(string(now.Current.CertificateDer) == string(pre.Next.CertificateDer)):
+			return ns, "trust-reset:after-storage-failure", "after a rotation call that hit a storage failure the stored roots are neither the previous ones nor a promotion of the previous next"
+		}
+		r.Branch("rotate:with-storage-fault") // a self-loop on the unchanged tree: storage is as before
 	case "enroll":
 		if s.enrolledNow || w.cfg.E == 0 {
 			return nil, "", ""
@@ -397,7 +425,7 @@ func (w *world) explore(c *engine.Ctx, r *engine.Report) {
 				r.Violate(sig, fmt.Sprintf("[%s] history %v: %s", w.cfg, path, msg), replayData{w.cfg, path, c.Seed})
 				return
 			}
-			for _, l := range []string{"rotate", "enroll", "tick"} {
+			for _, l := range []string{"rotate", "rotate-fault-1", "rotate-fault-2", "rotate-fault-3", "enroll", "tick"} {
 				if l == "tick" && s.ticks >= horizon {
 					continue
 				}
@@ -430,7 +458,7 @@ func compress(p []string) string {
 }
 
 func run(c *engine.Ctx, r *engine.Report) {
-	r.Need("dial-ok", "critical-instant-ok", "rotate:no-op", "rotate:promote", "re-enrolled")
+	r.Need("dial-ok", "critical-instant-ok", "rotate:no-op", "rotate:promote", "rotate:with-storage-fault", "re-enrolled")
 	for i, cfg := range configs(c.Thorough()) {
 		if !c.Mine(i) {
 			continue
@@ -474,7 +502,7 @@ func init() {
 	engine.Register(&engine.CheckDef{
 		ID:    "C09",
 		Level: "model_checking",
-		Rule: "BFS over {tick one grid unit (1h), rotate roots, node (re-)enrolls (first by enrollment, then by RotateNodeCredentials)} with a monitor that disables tick whenever the server's interval R or the node's interval E = floor((span-R)/2 - |not-before skew|) would be exceeded, for (lifetime, not-before, not-after) in {(8,0,0),(8,-1,1),(16,-2,0)} units x R in {1,2,3,span-1} (thorough: also 5, span/2, span-2; where E < 1 only the rotation clause is explored), up to a horizon of 2 (thorough 5) spans; at every reachable grid state reached by time passing (thorough: at every state): a real Dial through the real listener under the virtual clock, and at every state the real ClientConfigs/ServerConfig validity filters now and at every end-point of a root or chain window +-1ns inside the next grid interval; every rotation must be a no-op or a promotion of a valid next; " +
+		Rule: "BFS over {tick one grid unit (1h), rotate roots, a rotation call whose first / second / third storage operation fails, node (re-)enrolls (first by enrollment, then by RotateNodeCredentials)} with a monitor that disables tick whenever the server's interval R or the node's interval E = floor((span-R)/2 - |not-before skew|) would be exceeded, for (lifetime, not-before, not-after) in {(8,0,0),(8,-1,1),(16,-2,0)} units x R in {1,2,3,span-1} (thorough: also 5, span/2, span-2; where E < 1 only the rotation clause is explored), up to a horizon of 2 (thorough 5) spans; at every reachable grid state reached by time passing (thorough: at every state): a real Dial through the real listener under the virtual clock, and at every state the real ClientConfigs/ServerConfig validity filters now and at every end-point of a root or chain window +-1ns inside the next grid interval; every rotation must be a no-op or a promotion of a valid next; " +
 			"distinct_nontrivial = canonical states (validity instants relative to now, chain-to-root membership, cadence counters)",
 		Assumptions: []string{"the space is bounded by the horizon, not by a fixpoint (half-life shifts create new relative offsets)", "'randomized with jitter' and 'several orders of magnitude' are sampling and not claimed; the code is scale-free except for nanosecond truncation of /2 and the one-second granularity of certificate times, which is why the grid unit is one hour"},
 		Shards:      func(c *engine.Ctx) int { return 16 },
